@@ -200,6 +200,10 @@ def designed_tables(rng):
     out.append((2, 21, ['base', 'pos']))
     out.append((2, 35, ['base', 'neg']))
     out.append((3, 20, ['base', 'pos', 'mix']))
+    # one gross outlier per column (the clip of the marginal CDF at EPSILON acts), concrete location-scale marginals (indices 19..21)
+    out.append((3, 60, ['outlier', 'mix', 'outlier']))
+    out.append((2, 45, ['outlier', 'outlier']))
+    out.append((4, 80, ['base', 'outlier', 'mix', 'base']))
     return out
 
 
@@ -249,7 +253,7 @@ def _run(ctx):
         labels = 'int' if k % 5 == 4 else 'str'
         X, kinds = G.make_table(rng, d, n, kinds, labels=labels, regular=(k % 2 == 1))
         cfg_name = cfg_names[k % len(cfg_names)]
-        if any(kk in ('offset', 'tiny') for kk in kinds) or 15 <= k < 19:
+        if any(kk in ('offset', 'tiny', 'outlier') for kk in kinds) or 15 <= k < 19:
             cfg_name = STRICT_CFGS[k % len(STRICT_CFGS)]      # (15..18: the perfectly-correlated designs, location-scale marginals)
         if cfg_name == 'default' and not quick and k % 18 != 0:
             cfg_name = 'class'          # the default (model selection) is slow; sampled more thinly in the thorough tier
